@@ -90,7 +90,7 @@ def run(ctx):
     rc, cases, e = harness(exe, ["corr", "-seed", ctx.seed, "-n", n, "-exh", exh], 3000)
     if rc != 0:
         raise common.CheckError("harness corr failed rc=%s: %s" % (rc, e[-1000:]))
-    lines = [l for l in cases.splitlines() if l[:2] in ("R\t", "B\t", "G\t", "A\t", "T\t", "C\t", "Q\t")]
+    lines = [l for l in cases.splitlines() if l[:2] in ("R\t", "B\t", "G\t", "A\t", "T\t", "C\t", "Q\t", "X\t")]
     fails = [l.split("\t") for l in cases.splitlines() if l.startswith("FAIL\t")]
     stats = [l.split("\t") for l in cases.splitlines() if l.startswith("STATS\t")]
     res = common.run_model(model, "\n".join(lines) + "\n")
@@ -98,7 +98,7 @@ def run(ctx):
     distinct = len(set(l.split("\t", 2)[2] for l in lines))
     ctx.cov["evaluations"] += len(lines)
     ctx.cov["distinct_nontrivial"] += distinct
-    kinds = {k: sum(1 for l in lines if l.startswith(k + "\t")) for k in ("R", "B", "G", "A", "T", "C", "Q")}
+    kinds = {k: sum(1 for l in lines if l.startswith(k + "\t")) for k in ("R", "B", "G", "A", "T", "C", "Q", "X")}
     ctx.notes["correspondence"] = {
         "cases": len(lines), "mismatches": len(mism), "distinct_cases": distinct, "kinds": kinds,
         "exhaustive_shape_list_length": exh, "shape_alphabet": 29,
